@@ -100,6 +100,17 @@ fn events(v: &[T]) -> Vec<String> {
             // x . stringify (
             if is_p(&v[i + 1], '.') && id(&v[i + 2]) == Some("stringify") { ev.push(format!("stringify[{recv}]")); }
             if recv == "while" || recv == "loop" || recv == "for" || recv == "break" || recv == "return" { ev.push(recv.to_string()); }
+            if recv == "for" {
+                // for (..) in self . field . iter()  -> which field is iterated
+                let mut k = i + 1;
+                while k + 2 < v.len() && v[k] != T::Open('{') {
+                    if id(&v[k]) == Some("self") && is_p(&v[k + 1], '.') {
+                        if let Some(f) = id(&v[k + 2]) { ev.push(format!("forfield[{f}]")); }
+                        break;
+                    }
+                    k += 1;
+                }
+            }
         }
         // match arm:  "TAG" =>
         if let T::Lit(l) = &v[i] {
